@@ -1,9 +1,11 @@
 pub mod c04;
 pub mod c07;
 pub mod c08;
+pub mod c09;
 pub mod c11;
 pub mod c16;
+pub mod c18;
 
 pub fn all() -> Vec<crate::Prop> {
-    vec![c04::prop(), c07::prop(), c08::prop(), c11::prop(), c16::prop()]
+    vec![c04::prop(), c07::prop(), c08::prop(), c09::prop(), c11::prop(), c16::prop(), c18::prop()]
 }
